@@ -3,7 +3,7 @@
   About Model/Engine.lean: `dequeue_operation`, `does_operation_pass_receive_maximum_flow_control`,
   `should_external_operations_be_slow_start_throttled` (protocol.rs).
 -/
-import GV.Proofs.EngineBasics
+import GV.Proofs.EngineWF
 namespace GV.Props.C09
 open GV
 
@@ -79,5 +79,62 @@ theorem slow_start_initialised (e : Engine) (h : e.cfg.drainOneAtATime = true) :
 /-- nothing is sent while a write is pending (one batch at a time) -/
 theorem no_dequeue_while_write_pending (e : Engine) (all : Bool) (h : e.pendingWrite = true) : (e.dequeue all).2 = none := by
   simp [Engine.dequeue, h]
+
+end GV.Props.C09
+
+namespace GV.Props.C09
+open GV
+
+/-! ### every history -/
+
+/-- **Receive maximum is never exceeded.**  After any sequence of events, for any configuration: while connected, the
+    number of publishes awaiting an acknowledgement is at most the Receive Maximum the server announced in this
+    connection's CONNACK (65535 when it announced none). -/
+theorem receive_maximum_never_exceeded (cfg : Config) (evs : List Event)
+    (hs : (runEvents (Engine.new cfg) evs).1.state = .connected) :
+    ∃ s, (runEvents (Engine.new cfg) evs).1.settings = some s ∧
+      (runEvents (Engine.new cfg) evs).1.pendingPub.length ≤ s.receiveMaximum := by
+  obtain ⟨rm, hrm, hlen, _⟩ := (inv_after cfg evs).2.1.f hs
+  cases hset : (runEvents (Engine.new cfg) evs).1.settings with
+  | none =>
+    have : (runEvents (Engine.new cfg) evs).1.view.rm = none := by simp [Engine.view, hset]
+    rw [this] at hrm; cases hrm
+  | some s =>
+    have : (runEvents (Engine.new cfg) evs).1.view.rm = some s.receiveMaximum := by simp [Engine.view, hset]
+    rw [this] at hrm; cases hrm
+    exact ⟨s, rfl, hlen⟩
+
+/-- every entry of the pending-publish table is a distinct tracked QoS 1/2 publish carrying the id it is filed under: the
+    table's length is the number of unacknowledged publishes -/
+theorem pending_publish_entries (cfg : Config) (evs : List Event) (pid id : Nat)
+    (h : (runEvents (Engine.new cfg) evs).1.pendingPub.lookup pid = some id) :
+    ∃ o, (runEvents (Engine.new cfg) evs).1.ops.lookup id = some o ∧ o.packetId = some pid ∧ isAckedPublish o.packet = true :=
+  (inv_after cfg evs).2.1.tp pid id h
+
+/-- while a QoS 1/2 publish that is not yet in the table is being written, there is room for it -/
+theorem room_for_the_publish_being_written (cfg : Config) (evs : List Event) (id : Nat) (o : Op)
+    (hs : (runEvents (Engine.new cfg) evs).1.state = .connected) (hc : (runEvents (Engine.new cfg) evs).1.current = some id)
+    (h : (runEvents (Engine.new cfg) evs).1.ops.lookup id = some o) (hk : isAckedPublish o.packet = true)
+    (hn : id ∉ vals (runEvents (Engine.new cfg) evs).1.pendingPub) :
+    ∃ s, (runEvents (Engine.new cfg) evs).1.settings = some s ∧ (runEvents (Engine.new cfg) evs).1.pendingPub.length < s.receiveMaximum := by
+  obtain ⟨rm, hrm, _, hcur⟩ := (inv_after cfg evs).2.1.f hs
+  cases hset : (runEvents (Engine.new cfg) evs).1.settings with
+  | none =>
+    have : (runEvents (Engine.new cfg) evs).1.view.rm = none := by simp [Engine.view, hset]
+    rw [this] at hrm; cases hrm
+  | some s =>
+    have : (runEvents (Engine.new cfg) evs).1.view.rm = some s.receiveMaximum := by simp [Engine.view, hset]
+    rw [this] at hrm; cases hrm
+    rcases hcur id hc o h hk with a | a
+    · exact absurd a hn
+    · exact ⟨s, rfl, a⟩
+
+/-- non-vacuity: receive maximum 1 announced; two QoS 1 publishes submitted; after servicing only one is in flight -/
+example : ((runEvents (Engine.new {}) [.user 0 (.publish { qos := 1, topic := [97] } 7 none), .user 0 (.publish { qos := 1, topic := [98] } 8 none),
+      .opened 1 100, .service 2 4096 0, .writeDone 3, .data 4 [0x20, 0x06, 0x00, 0x00, 0x03, 0x21, 0x00, 0x01], .service 5 4096 0, .writeDone 6,
+      .service 7 4096 0]).1.pendingPub.length, (runEvents (Engine.new {}) [.user 0 (.publish { qos := 1, topic := [97] } 7 none), .user 0 (.publish { qos := 1, topic := [98] } 8 none),
+      .opened 1 100, .service 2 4096 0, .writeDone 3, .data 4 [0x20, 0x06, 0x00, 0x00, 0x03, 0x21, 0x00, 0x01], .service 5 4096 0, .writeDone 6,
+      .service 7 4096 0]).1.userQ.length) = (1, 1) := by
+  decide +kernel
 
 end GV.Props.C09
